@@ -98,6 +98,12 @@ pub fn programs(kind: &str, src: &[String]) -> Vec<(String, String)> {
         let base = render(kind, src, false, false, "");
         if base.trim().is_empty() { return v; }
         v.push(("top".into(), base.clone()));
+        // the way the text ends: no final line break, CR LF, and a lone CR after a closing comment (which is part of the comment
+        // for the grammar unless it ends the line)
+        let body = base.trim_end().to_string();
+        v.push(("top ends-without-newline".into(), body.clone()));
+        v.push(("top ends-crlf".into(), format!("{body}\r\n")));
+        if body.lines().last().map(|l| l.contains("//")).unwrap_or(false) { v.push(("top ends-cr".into(), format!("{body}\r"))); }
         v.push(("top gaps".into(), with_gaps(&base, 1)));
         v.push(("top gaps2".into(), with_gaps(&render(kind, src, false, true, ""), 3)));
         // statements that are one line in the source but wrap at the narrower widths, with 0 / 1 / 2 blank lines before them
